@@ -7,7 +7,7 @@ T0 = 10                                       # first P1 second used in generate
 
 DEFAULT_CALL = {'types': None, 'tr': None, 'src': None, 'max': None, 'p1': False, 'sys': False, 'num': False,
                 'keep': False, 'order': False, 'ign': False, 'align': 0, 'atypes': None, 'idx': False, 'bytes': False,
-                'nan': True}
+                'nan': True, 'trf': 'obj', 'tyf': 'list'}
 
 
 def call(**kw):
@@ -23,14 +23,19 @@ def fixed_log():
     return [{'t': t, 'p1': p, 'src': 0, 'sys': s if t == 'EVENT_NOTIFICATION' else 0} for t, p, s in L]
 
 
+def log_t0(log):
+    ts = [m['p1'] for m in log if m['p1'] is not None]
+    return min(ts) if ts else T0
+
+
 def gen_log(r, late_source=False):
     n = r.randint(5, 14) if not late_source else r.randint(24, 30)
-    t = T0
+    t = r.choice([T0, T0, T0 + 0.5, 2.25, 3, 7.75])        # first P1 time: never 0, often not a whole second
     log = []
     nsrc = r.choice([1, 1, 2])
     for i in range(n):
         if r.random() < 0.45:
-            t += 1
+            t += r.choice([1, 1, 1, 0.5, 1.25])
         ty = r.choice(['POSE', 'POSE', 'POSE_AUX', 'GNSS_INFO', 'EVENT_NOTIFICATION']) if not late_source else r.choice(['POSE', 'POSE', 'POSE_AUX'])
         p1 = t
         if ty == 'EVENT_NOTIFICATION':
@@ -60,17 +65,29 @@ def gen_call(r, log, rich=True):
         if r.random() < 0.04:
             c['types'].append(UNSUPPORTED)
     x = r.random()
-    tmax = max([m['p1'] for m in log if m['p1'] is not None] + [T0])
+    t0 = log_t0(log)
+    tmax = max([m['p1'] for m in log if m['p1'] is not None] + [t0])
     if x < 0.25:
-        a = r.choice([None, 0, 1, 2]); b = r.choice([None, 1, 2, 3, tmax - T0 + 1])
+        a = r.choice([None, 0, 1, 2, 0.5]); b = r.choice([None, 1, 2, 3, 2.5, int(tmax - t0) + 1])
         if a is None and b is None:
             b = 2
         c['tr'] = [a, b, False]
-    elif x < 0.32:
-        a = r.choice([None, T0, T0 + 1, T0 + 2]); b = r.choice([None, T0 + 1, T0 + 2, tmax + 1])
+    elif x < 0.34:
+        f0 = int(t0)
+        a = r.choice([None, f0, f0 + 1, f0 + 2, f0 + 0.5]); b = r.choice([None, f0 + 1, f0 + 2, f0 + 2.5, int(tmax) + 1])
         if a is None and b is None:
-            a = T0 + 1
+            a = f0 + 1
         c['tr'] = [a, b, True]
+    elif x < 0.40:
+        # numbers that make sense both relative to t0 and as absolute P1 times
+        a = r.choice([None, 1, 2, int(t0)]); b = r.choice([int(t0) + 1, int(t0) + 2, 4, 6])
+        c['tr'] = [a, b, r.random() < 0.5]
+    if c['tr'] is not None:
+        c['trf'] = r.choice(['obj', 'obj', 'str', 'tuple'] + (['ts'] if c['tr'][2] else []))
+    if c['types'] is not None:
+        c['tyf'] = r.choice(['list', 'list', 'set', 'tuple', 'cls'] + (['single', 'cls1'] if len(c['types']) == 1 else []))
+        if UNSUPPORTED in c['types'] and c['tyf'] in ('cls', 'cls1'):
+            c['tyf'] = 'list'
     n = len(log)
     if r.random() < 0.45:
         c['max'] = r.choice([1, -1, 2, -2, 2, -2, 3, n + 3, -(n + 3), 0])
@@ -99,7 +116,8 @@ def gen_call(r, log, rich=True):
 def mutate_call(r, c, log):
     """a call that shares most of its arguments with c (so cache keys collide / nearly collide)"""
     d = dict(c)
-    k = r.choice(['types', 'types', 'max', 'num', 'keep', 'align', 'p1', 'same', 'ign', 'order', 'tr', 'idx', 'src'])
+    k = r.choice(['types', 'types', 'max', 'num', 'keep', 'align', 'p1', 'same', 'ign', 'order', 'tr', 'idx', 'src',
+                  'tr-absrel', 'tr-form', 'types-form', 'max-sign', 'src-full'])
     if k == 'types':
         base = [t for t in (c['types'] or TYPES) if t != UNSUPPORTED]
         other = [t for t in TYPES if t not in base]
@@ -122,6 +140,23 @@ def mutate_call(r, c, log):
     elif k == 'src':
         srcs = sorted({m['src'] for m in log})
         d['src'] = None if c['src'] is not None else [r.choice(srcs)]
+    # "equal-looking but different" values of one argument
+    elif k == 'tr-absrel':
+        if c['tr'] is None:
+            d['tr'] = [1, int(log_t0(log)) + 2, r.random() < 0.5]
+        else:
+            d['tr'] = [c['tr'][0], c['tr'][1], not c['tr'][2]]
+        d['trf'] = r.choice(['obj', 'str', 'tuple'])
+    elif k == 'tr-form':
+        if c['tr'] is not None:
+            d['trf'] = r.choice([f for f in ['obj', 'str', 'tuple'] + (['ts'] if c['tr'][2] else []) if f != c['trf']])
+    elif k == 'types-form':
+        if c['types'] is not None and UNSUPPORTED not in c['types']:
+            d['tyf'] = r.choice([f for f in ['list', 'set', 'tuple', 'cls'] + (['single', 'cls1'] if len(c['types']) == 1 else []) if f != c['tyf']])
+    elif k == 'max-sign':
+        d['max'] = -c['max'] if c['max'] else r.choice([2, -2])
+    elif k == 'src-full':
+        d['src'] = None if c['src'] is not None else sorted({m['src'] for m in log})
     return d
 
 
@@ -157,6 +192,46 @@ def partial_invalidation_histories():
                         if {k: b[k] for k in b if k != 'types'} == {k: a[k] for k in a if k != 'types'}:
                             b = call(types=Sp, idx=not a['idx'], **{k: v for k, v in bp.items()})
                         out.append([a, b, dict(a)])
+    return out
+
+
+def lookalike_log(frac):
+    """the interleaved 16-message log with a first P1 time that is not 0 (and, with frac, not a whole second)"""
+    log = interleaved_log()
+    for i, m in enumerate(log):
+        if m['p1'] is not None:
+            m['p1'] = (2.5 if frac else 3) + (i // 2) * (0.75 if frac else 1)
+    log[5]['src'] = 1; log[11]['src'] = 1
+    return log
+
+
+def lookalike_histories(log):
+    """for every argument, pairs of values that look equal but mean something different (or look different and mean
+    the same), each as A;B, B;A and A;B;A: same numbers as a relative / absolute range in every accepted form, the same
+    type set as list / set / tuple / classes / single value, max_messages N vs -N, no source_ids vs the full set"""
+    f0 = int(log_t0(log))
+    srcs = sorted({m['src'] for m in log})
+    out = []
+    bases = [call(types=['POSE', 'POSE_AUX']), call(types=['POSE', 'GNSS_INFO'], num=True, keep=True), call(types=['POSE'], idx=True),
+             call(types=None), call(types=['POSE', 'POSE_AUX', 'EVENT_NOTIFICATION'], max=3)]
+    variants = []
+    for a, b in ((1, 3), (2, 4), (f0, f0 + 2), (None, f0 + 1), (f0 + 1, None), (1.5, f0 + 1.5)):
+        forms = [dict(tr=[a, b, False], trf='obj'), dict(tr=[a, b, True], trf='obj'), dict(tr=[a, b, False], trf='str'),
+                 dict(tr=[a, b, True], trf='str'), dict(tr=[a, b, True], trf='tuple'), dict(tr=[a, b, False], trf='tuple'),
+                 dict(tr=[a, b, True], trf='ts')]
+        variants.append(forms)
+    variants.append([dict(max=n) for n in (1, -1, 2, -2, 3, -3)])
+    variants.append([dict(src=None), dict(src=srcs), dict(src=srcs[:1])])
+    for base in bases:
+        vs = list(variants)
+        if base['types'] is not None:
+            tf = ['list', 'set', 'tuple', 'cls'] + (['single', 'cls1'] if len(base['types']) == 1 else [])
+            vs.append([dict(tyf=f) for f in tf])
+        for group in vs:
+            for i, x in enumerate(group):
+                for y in group[i + 1:]:
+                    A = dict(base); A.update(x); B = dict(base); B.update(y)
+                    out += [[A, B], [B, A], [A, B, dict(A)]]
     return out
 
 
